@@ -62,9 +62,10 @@ func c06ReadImage(start int64) {
 	dev.NoWrites = true
 	vp.Cover("image placed")
 	fs, err := Read(dev, 0, start, bs)
-	// KF-C06-9: only the volume descriptors are read at start+...; path table, directories and file
-	// data are read at absolute block*blocksize, so an image that does not begin at byte 0 of the
-	// backend (a partition) is not readable (and Finalize writes at absolute offsets as well)
+	// KF-C06-9 (fixed in /repo by 12ee181 while this harness was being written): only the volume
+	// descriptors were read at start+...; path table, directories and file data were read at
+	// absolute block*blocksize, so an image that does not begin at byte 0 of the backend (a
+	// partition) was not readable (and Finalize wrote at absolute offsets as well)
 	vp.AssertUnless("KF-C06-9", start != 0, err == nil, "the image is opened")
 	if err != nil {
 		return
